@@ -164,11 +164,106 @@ fn npo_imbalance<S: Setup>(prog: &Prog, p: &Pipeline<S>, cfg: &PackCfg) -> bool 
     matches!(guarded(|| S::prove(&prover, traces, cpd)), Err(m) if m.contains("Lookup mismatch"))
 }
 
+/// Programs of the directed `recompose-dense` family: first statement public, then per value
+/// `Public, DecomposeExt, Add...` (recognised by shape so that replays classify alike).
+fn dense_family(prog: &Prog) -> bool {
+    prog.stmts.len() >= 4
+        && matches!(prog.stmts[0], Stmt::Public)
+        && matches!(prog.stmts[1], Stmt::Public)
+        && matches!(prog.stmts[2], Stmt::DecomposeExt(1))
+        && prog.stmts.iter().filter(|s| matches!(s, Stmt::DecomposeExt(_))).count() >= 2
+        && prog.stmts.iter().all(|s| matches!(s, Stmt::Public | Stmt::DecomposeExt(_) | Stmt::Add(..) | Stmt::RecomposeExt(..) | Stmt::Mul(..)))
+        && {
+            // no value decomposed twice, no coefficient recomposed twice
+            let mut dec: Vec<usize> = prog.stmts.iter().filter_map(|s| if let Stmt::DecomposeExt(x) = s { Some(*x) } else { None }).collect();
+            let n = dec.len();
+            dec.sort();
+            dec.dedup();
+            let mut rec: Vec<usize> = prog.stmts.iter().filter_map(|s| if let Stmt::RecomposeExt(cs, _) = s { Some(cs.clone()) } else { None }).flatten().collect();
+            let m = rec.len();
+            rec.sort();
+            rec.dedup();
+            dec.len() == n && rec.len() == m
+        }
+}
+
+/// Key generation refused the circuit with `UnclaimedPrivateInput`: is some private input of the
+/// program one whose expression lives in a slot that an ALU / plugin-table op of the compiled
+/// circuit refers to?
+fn used_private_refused<S: Setup>(prog: &Prog, p: &Pipeline<S>) -> Option<&'static str> {
+    let built = p.built.as_ref()?;
+    let c = &built.circuit;
+    // 1 = read by a plugin-table row, 2 = referred to by an ALU op
+    let mut referenced = vec![0u8; c.witness_count as usize];
+    let mut mark = |w: &p3_circuit::WitnessId, how: u8| {
+        if let Some(x) = referenced.get_mut(w.0 as usize) {
+            *x = (*x).max(how);
+        }
+    };
+    for op in &c.ops {
+        match op {
+            Op::Alu { kind, a, b, c: cc, out, .. } => {
+                mark(a, 2);
+                if *kind != AluOpKind::BoolCheck {
+                    mark(b, 2);
+                    mark(out, 2);
+                }
+                if let Some(x) = cc {
+                    if matches!(kind, AluOpKind::MulAdd | AluOpKind::HornerAcc) {
+                        mark(x, 2);
+                    }
+                }
+            }
+            Op::NonPrimitiveOpWithExecutor { inputs, outputs, .. } => {
+                for w in inputs.iter().chain(outputs.iter()).flatten() {
+                    mark(w, 1);
+                }
+            }
+            _ => {}
+        }
+    }
+    // the refused input: position of the reported slot among the circuit's private input rows
+    let refused: Option<u32> = match &p.prep {
+        Stage::Err(m) => m.split("WitnessId(").nth(1).and_then(|r| r.split(')').next()).and_then(|n| n.trim().parse().ok()),
+        _ => None,
+    };
+    let pos = refused.and_then(|w| c.private_input_rows.iter().position(|r| r.0 == w))?;
+    let mut var = 0usize;
+    let mut k = 0usize;
+    for st in &prog.stmts {
+        if matches!(st, Stmt::Private) {
+            if k == pos {
+                // the slot of the input's own expression (where every reader of the input looks)
+                return match built.var_expr.get(var).and_then(|e| c.expr_to_widx.get(e)).and_then(|w| referenced.get(w.0 as usize).copied()) {
+                    Some(2) => Some("private-input-referred-to-by-an-alu-op"),
+                    Some(1) => Some("private-input-read-only-by-plugin-rows"),
+                    _ => None,
+                };
+            }
+            k += 1;
+        }
+        var += st.n_out(S::D);
+    }
+    None
+}
+
 fn signature<S: Setup>(prog: &Prog, p: &Pipeline<S>, cfg: &PackCfg) -> Option<String> {
     let (name, st) = p.first_failure()?;
+    // the directed recompose-dense family has its own keys (flavour and lane count): the classes
+    // below are too coarse to tell a lane-stride defect from the known double-creator one
+    if prog.recompose_npo && dense_family(prog) && name != "build" {
+        let (lanes, split) = prog.recompose_cfg();
+        return Some(format!("unprovable/directed-recompose-dense/{}-lanes{lanes}/{name}", if split { "split-coeff" } else { "standard" }));
+    }
     match name {
         "build" => None,
         // key generation refusing a circuit is "the builder does not accept it", unless it panics
+        // ... except that an input the compiled circuit does read cannot be "unclaimed": the
+        // private input's expression resolves to a slot that a table op refers to, yet key
+        // generation says no op creates it
+        "prep" if matches!(st, Stage::Err(m) if m.contains("UnclaimedPrivateInput")) && used_private_refused::<S>(prog, p).is_some() => {
+            Some(format!("prep/err:UnclaimedPrivateInput/{}", used_private_refused::<S>(prog, p).unwrap()))
+        }
         "prep" if matches!(st, Stage::Err(_)) => None,
         "prove" | "verify" if bus_class::<S>(prog, p, cfg).is_some() => {
             Some(format!("unprovable/bus-imbalance/{}", bus_class::<S>(prog, p, cfg).unwrap()))
